@@ -146,6 +146,7 @@ MUTANTS = {
     "shared_holder_default_again": M(SDATA, "        if functionValues is None:\n            functionValues = [FunctionValue()]\n", "        if functionValues is None:\n            functionValues = SearchDataItem._DEFAULT\n", ["C12"], note="revert of fix 3"),
     "solution_kept_on_the_problem_object": M(SDATA, "        self.solution = Solution(problem)", "        self.solution = problem.__dict__.setdefault('_solution', Solution(problem)) if problem is not None else Solution(problem)", ["C12"], note="state kept on the Problem: only two solvers on ONE problem object share it"),
     "dimension_kept_on_the_parameters_object": M(METHOD, "        self.dimension = task.problem.numberOfFloatVariables", "        parameters.dimension = task.problem.numberOfFloatVariables", ["C06"], note="read back through a property (APPENDIX): solvers of different dimension sharing one SolverParameters object"),
+    "getresults_refreshes_the_queue": M(PROCESS, "        return self.searchData.solution\n", "        if self.searchData.GetCount() > 3:\n            self.searchData.RefillQueue()\n        return self.searchData.solution\n", ["C02", "C11"], note="a read that steers: harmless between iterations, but between taking an interval from the queue and inserting the new trial (GetResults called from inside the objective) it re-queues the interval being split"),
     "class_level_queue": M(SDATA, "        self._RGlobalQueue = CharacteristicsQueue(maxlen)\n        self.__firstDataItem", "        self._RGlobalQueue = SearchData._SHARED_Q\n        self.__firstDataItem", ["C12"]),
     "first_iteration_rerun_by_solve": M(PROCESS, "        startTime = datetime.now()\n", "        if self.__first_iteration is False:\n            self.method.FirstIteration()\n        startTime = datetime.now()\n", ["C11"], note="the commented-out block in Solve, re-enabled"),
     "getimage_no_copy": M(EVOL, "        self.__TransformP2D()\n        return np.copy(self.yValues)", "        self.__TransformP2D()\n        return self.yValues", ["C17"]),
